@@ -2,12 +2,14 @@
    Only property theorems, each closed by `exact <lemma>` and followed by Print Assumptions. *)
 From SV Require Import Model.PeakHelpers Spec.PeakHelpersSpec Proof.PeakHelpersProof.
 From SV Require Import Model.Peaks Spec.PeaksSpec Proof.PeaksProof Proof.PeaksTheorems Proof.PeaksExamples.
+From SV Require Import Model.Groups Proof.GroupsProof.
 From SV Require Import Model.Merging Spec.MergingSpec Proof.ReplaceMergedProof Proof.MergePeaksProof.
-From SV Require Import Proof.ReplaceMergedSorted Proof.PeaksNoCut.
+From SV Require Import Proof.ReplaceMergedSorted Proof.PeaksNoCut Proof.MergeWaveformProof.
 From SV Require Import Model.PeakProps Spec.PeakPropsSpec Proof.PeakPropsProof.
+From SV Require Import Model.Widths Spec.WidthsSpec Proof.WidthsProof.
 From SV Require Import Model.Splitting Proof.SplittingProof.
-From SV Require Import Model.SumWaveform Proof.SumWaveformProof.
-From SV Require Import Model.HDR Proof.HDRProof.
+From SV Require Import Model.SumWaveform Proof.SumWaveformProof Spec.SumWaveformSpec Proof.SumWaveformSamples.
+From SV Require Import Model.HDR Proof.HDRProof Spec.HDRSpec Proof.HDRLoopProof Proof.HDRDefProof.
 
 (* ------------------------------------------------------------------------------------------ *)
 (* symmetric_moving_average (repaired code: `just_out >= 0`, /repo 0edf9fa; `count = min(wing_width,
@@ -89,6 +91,43 @@ Theorem C19_find_peaks_disjoint_ordered_refuted :
 Proof. exact find_peaks_overlap_witness. Qed.
 Print Assumptions C19_find_peaks_disjoint_ordered_refuted.
 
+(* find_peak_groups (peaks clustered through fake hits of dt 1, area 1, channel 0): whenever it
+   succeeds, the result is one interval per cluster of THE gap clustering of the peaks (every peak
+   in exactly one cluster, in order; no cluster is dropped), from the cluster's first start minus
+   left_extension to its latest end plus right_extension *)
+Theorem C19_find_peak_groups_are_gap_clusters : forall gap lext rext maxdur pk out,
+  find_peak_groups gap lext rext maxdur pk = Ok out ->
+  fp_asserts (group_params gap lext rext maxdur) [1] (map fake_hit pk) = true ->
+  exists gs, Clustering (group_params gap lext rext maxdur) (map fake_hit pk) gs /\
+             (forall gs', Clustering (group_params gap lext rext maxdur) (map fake_hit pk) gs' -> gs' = gs) /\
+             concat gs = map fake_hit pk /\
+             out = map (fun g => (gfirst g - lext, gend g + rext)) gs.
+Proof. exact find_peak_groups_spec. Qed.
+Print Assumptions C19_find_peak_groups_are_gap_clusters.
+
+(* add_lone_hits: when every lone hit is assigned -1 or a peak that contains it (what
+   fully_contained_in returns, C17), there is no ValueError; times, lengths, dt and buffer sizes
+   are untouched, and every peak gains exactly the areas (x gain) of the lone hits assigned to it:
+   in area, in the waveform (delta pulses) and in area_per_channel *)
+Theorem C19_add_lone_hits_conserves : forall gains fc lhs peaks,
+  alh_valid peaks fc lhs ->
+  exists peaks', add_lone_hits gains peaks fc lhs = Ok peaks' /\
+    map lshape peaks' = map lshape peaks /\
+    forall k, 0 <= k < zlen peaks ->
+      let p := nth (Z.to_nat k) peaks lp0 in let p' := nth (Z.to_nat k) peaks' lp0 in
+      lp_area p' = lp_area p + added gains k fc lhs /\
+      zsum (lp_data p') = zsum (lp_data p) + added gains k fc lhs /\
+      zsum (lp_apc p') = zsum (lp_apc p) + added gains k fc lhs.
+Proof. exact add_lone_hits_conserves. Qed.
+Print Assumptions C19_add_lone_hits_conserves.
+
+Theorem C19_add_lone_hits_keeps_area_integral : forall gains fc lhs peaks peaks',
+  alh_valid peaks fc lhs -> add_lone_hits gains peaks fc lhs = Ok peaks' ->
+  Forall (fun p => lp_area p = zsum (lp_data p) /\ lp_area p = zsum (lp_apc p)) peaks ->
+  Forall (fun p => lp_area p = zsum (lp_data p) /\ lp_area p = zsum (lp_apc p)) peaks'.
+Proof. exact add_lone_hits_keeps_area_integral. Qed.
+Print Assumptions C19_add_lone_hits_keeps_area_integral.
+
 (* ------------------------------------------------------------------------------------------ *)
 (* replace_merged / _replace_merged: for skip windows that lie inside the array, do not overlap
    and have strictly increasing ends, the loop (including the insertion after the loop and all
@@ -126,6 +165,35 @@ Theorem C19_merge_adds_and_spans : forall ns nch old p E,
 Proof. exact merge_group_spec. Qed.
 Print Assumptions C19_merge_adds_and_spans.
 
+(* ... and its waveform: for disjoint time-ordered constituents (dt > 0, length >= 0) the buffer
+   they are summed into - each up-sampled by dt / common_dt with the samples divided by that
+   factor - integrates to the sum of the constituents' waveform integrals; the stored waveform is
+   that buffer through store_downsampled_waveform, so it integrates to the same value unless the
+   down-sampling truncates (factor > 1 not dividing the length: T5) *)
+Theorem C19_merge_waveform_conserves_integral : forall ns nch old p E,
+  merge_group ns nch old = Ok (p, E) -> 0 < ns ->
+  Forall (fun q => 0 < mdt q /\ 0 <= mlen q) old -> disjointb old = true ->
+  exists first, hd_error old = Some first /\
+  let cdt := gcdl (mdt first) (map mdt old) in
+  let len0 := (mend (last old first) - mt first) / cdt in
+  let buf := map (fun j => buf_at old cdt (mt first) j 0%Q) (zseqn 0 (Z.to_nat len0)) in
+  let f := ds_factor len0 ns in
+  (qsum buf == qsum (map (fun q => wf_integral (mdata q) (mlen q)) old))%Q /\
+  mdata p = snd (store_downsampled len0 cdt ns buf) /\
+  ((f <= 1 \/ (f | len0)) ->
+   (qsum (mdata p) == qsum (map (fun q => wf_integral (mdata q) (mlen q)) old))%Q).
+Proof. exact merge_group_waveform. Qed.
+Print Assumptions C19_merge_waveform_conserves_integral.
+
+(* sample by sample: inside the slice of a constituent q the buffer holds q's sample
+   (j - i0) / up divided by up (i0 = (q.time - time) / common_dt, up = q.dt / common_dt); slices
+   of disjoint time-ordered peaks do not overlap, so nothing is overwritten *)
+Theorem C19_merge_waveform_samples : forall cdt t0 old lo j acc q,
+  slices_from cdt t0 lo old -> In q old -> p_i0 cdt t0 q <= j < p_end cdt t0 q ->
+  buf_at old cdt t0 j acc = (qget (mdata q) ((j - p_i0 cdt t0 q) / p_up cdt q) / inject_Z (p_up cdt q))%Q.
+Proof. exact buf_at_inside. Qed.
+Print Assumptions C19_merge_waveform_samples.
+
 Theorem C19_merge_peaks_one_group_per_range : forall ns nch ps se gs,
   merge_peaks ns nch ps se = Ok gs ->
   2 <= zlen ps /\ disjointb ps = true /\
@@ -143,6 +211,50 @@ Theorem C19_index_of_fraction_is_definition : forall A len data fs,
   qsorted fs -> index_of_fraction A len data fs = iof_spec A len data fs.
 Proof. exact index_of_fraction_spec. Qed.
 Print Assumptions C19_index_of_fraction_is_definition.
+
+(* compute_widths (K = len(peak["width"]) >= 2, positive area, every fraction below 1 reached):
+   with T(m) = the area-fraction time of the fraction m / (2 (K - 1)) in ns (T of the fraction 1 =
+   the peak length), median_time = T(1/2), width[k] = T(1/2 + k/(2(K-1))) - T(1/2 - k/(2(K-1))),
+   area_decile_from_midpoint[k] = T(k/(K-1)) - T(1/2). *)
+Theorem C19_widths_is_definition : forall K A len dt data, (2 <= K)%nat -> (0 < A)%Q ->
+  (forall m, 0 <= m < 2 * Z.of_nat K - 2 -> iof1 A data 0 0%Q (wfrac K m) <> None) ->
+  compute_widths K A len dt data = widths_spec K A len dt data.
+Proof. exact compute_widths_spec. Qed.
+Print Assumptions C19_widths_is_definition.
+
+(* a proper peak (non-negative samples, area = their sum > 0) reaches every fraction, and every
+   area-fraction time t lies inside the peak and is where the area left of t (whole samples plus
+   the linear part of the sample t falls into) equals the fraction of the area *)
+Theorem C19_widths_proper_peak : forall K A len dt data, (2 <= K)%nat -> (0 < A)%Q ->
+  Forall (fun x => 0 <= x)%Q data -> (A == qsum data)%Q ->
+  compute_widths K A len dt data = widths_spec K A len dt data /\
+  forall m t, 0 <= m <= 2 * Z.of_nat K - 2 -> iof1 A data 0 0%Q (wfrac K m) = Some t ->
+    (0 <= t <= inject_Z (zlen data))%Q /\ (cum_at data t == wfrac K m * A)%Q.
+Proof. exact widths_proper_peak. Qed.
+Print Assumptions C19_widths_proper_peak.
+
+(* the area-fraction time in general (any start index i and area `seen` before it) *)
+Theorem C19_area_fraction_time_is_definition : forall A, (0 < A)%Q -> forall f data i seen t,
+  Forall (fun x => 0 <= x)%Q data -> (seen <= f)%Q -> iof1 A data i seen f = Some t ->
+  (inject_Z i <= t <= inject_Z i + inject_Z (zlen data))%Q /\
+  (seen * A + cum_at data (t - inject_Z i) == f * A)%Q.
+Proof. exact iof1_cum. Qed.
+Print Assumptions C19_area_fraction_time_is_definition.
+
+(* compute_center_time: for non-negative samples with positive sum the center time is
+   time + floor(dt * (mean sample index + 1/2)) and lies inside the peak (the clip is the identity);
+   zero-sum peaks get their start time *)
+Theorem C19_center_time_is_definition : forall time len dt data,
+  Forall (fun x => 0 <= x) data -> 0 < zsum data -> 0 < dt -> len = zlen data ->
+  center_time time len dt data = center_spec time dt data /\
+  time <= center_spec time dt data <= time + len * dt.
+Proof. exact center_time_spec. Qed.
+Print Assumptions C19_center_time_is_definition.
+
+Theorem C19_center_time_of_empty_peak : forall time len dt data, 0 <= len * dt ->
+  zsum (firstn (Z.to_nat len) data) = 0 -> center_time time len dt data = time.
+Proof. exact center_time_empty. Qed.
+Print Assumptions C19_center_time_of_empty_peak.
 
 (* ------------------------------------------------------------------------------------------ *)
 (* _split_peaks: for strictly increasing positive split points ending at n (= len(w)), a parent
@@ -192,8 +304,7 @@ Print Assumptions C19_split_tiles_parent_pinned_refuted.
 
 (* ------------------------------------------------------------------------------------------ *)
 (* highest_density_region (repaired, /repo 1da565c: `len(gaps) >= _buffer_size`): every returned
-   interval list fits the result buffer; otherwise the -1 marker (None) is returned.  All other
-   facts about HDR rest on correspondence only. *)
+   interval list fits the result buffer; otherwise the -1 marker (None) is returned. *)
 Theorem C19_hdr_intervals_fit_buffer : forall data fs upper bs outs,
   highest_density_region data fs upper bs = Ok outs -> Forall (fits bs) outs.
 Proof. exact hdr_intervals_fit_buffer. Qed.
@@ -205,6 +316,52 @@ Theorem C19_hdr_intervals_fit_buffer_pinned_refuted :
   exists ivs bs, (zlen ivs - 1 >? bs) = false /\ ivs = runs (sort_z [4; 2; 0]) /\ ~ zlen ivs <= Z.max 1 bs.
 Proof. exact hdr_pinned_buffer_test_refuted. Qed.
 Print Assumptions C19_hdr_intervals_fit_buffer_pinned_refuted.
+
+(* highest_density_region equals its definition (Spec/HDRSpec.v), for a non-negative sample array
+   with positive total and a fraction in (0, 1].
+   only_upper_part = True: the reported amplitude h is >= 0 and is THE height above which the
+   distribution holds exactly the fraction: sum over the samples above h of (sample - h) =
+   f * total; the intervals are exactly the maximal runs (non-empty, ascending, separated by at
+   least one index, covering precisely that set) of {i : data[i] > h}. *)
+Theorem C19_hdr_upper_is_definition : forall data f bs,
+  Forall (fun d => 0 <= d) data -> 0 < zsum data -> (0 < f)%Q -> (f <= 1)%Q ->
+  exists o, highest_density_region data [f] true bs = Ok [o] /\ hdr_upper_result data f o.
+Proof. exact hdr_upper_is_definition. Qed.
+Print Assumptions C19_hdr_upper_is_definition.
+
+(* only_upper_part = False (repaired, /repo 2181c25: the tie test starts from the largest sample):
+   the intervals are exactly the maximal runs of an upper level set {i : data[i] >= L} whose samples
+   hold the fraction while no higher level set does, and amplitude * (number of its samples) =
+   (its area) - f * total. *)
+Theorem C19_hdr_is_definition : forall data f bs,
+  Forall (fun d => 0 <= d) data -> 0 < zsum data -> (0 < f)%Q -> (f <= 1)%Q ->
+  exists o, highest_density_region data [f] false bs = Ok [o] /\ hdr_level_result data f o.
+Proof. exact hdr_level_is_definition. Qed.
+Print Assumptions C19_hdr_is_definition.
+
+(* documentation of the pinned tree: with `lowest_sample_seen = np.inf` the tie test never skipped
+   j = 1, so a tied largest sample was cut when one of the tied samples alone held the fraction:
+   data [3,1,3,0], fraction 1/4 -> the single interval [2,3), sample 0 (also 3) left out *)
+Theorem C19_hdr_is_definition_pinned_refuted :
+  exists data f bs o,
+    Forall (fun d => 0 <= d) data /\ 0 < zsum data /\ (0 < f)%Q /\ (f <= 1)%Q /\
+    highest_density_region_pinned data [f] false bs = Ok [o] /\ ho_iv o = Some [(2, 3)] /\
+    ~ hdr_level_result data f o.
+Proof. exact hdr_level_tie_pinned_refuted. Qed.
+Print Assumptions C19_hdr_is_definition_pinned_refuted.
+
+(* an ascending list of fractions: every fraction gets the result it would get alone (both modes);
+   a total <= 0 is the ValueError *)
+Theorem C19_hdr_fractions_independent : forall data fs upper bs, qsorted fs -> 0 < zsum data ->
+  exists outs, highest_density_region data fs upper bs = Ok outs /\
+               Forall2 (fun f o => highest_density_region data [f] upper bs = Ok [o]) fs outs.
+Proof. exact hdr_fractions_independent. Qed.
+Print Assumptions C19_hdr_fractions_independent.
+
+Theorem C19_hdr_no_area_is_error : forall data fs upper bs,
+  zsum data <= 0 -> highest_density_region data fs upper bs = Err 1.
+Proof. exact hdr_no_area. Qed.
+Print Assumptions C19_hdr_no_area_is_error.
 
 (* ------------------------------------------------------------------------------------------ *)
 (* sum_waveform.  Full statement: every processed peak has area = sum over channels, and its stored
@@ -255,6 +412,25 @@ Theorem C19_sum_waveform_all_peaks : forall gains recs prev_i next_i nsr dt lmax
                      rest = mkswpeak (sp_t p) (sp_len p) (sp_dt p) 0 (sp_apc p) (sp_data p) :: pr).
 Proof. exact sw_peaks_conserve. Qed.
 Print Assumptions C19_sum_waveform_all_peaks.
+
+(* sample by sample: the scan over the hits of one peak adds, for exactly the hits it uses (sw_used:
+   not ending before the peak, up to the first one starting after it) and their hit waveforms w
+   (own record completed from the previous / next fragment), to every sample k of the buffer the
+   hit's contribution hit_contrib = gain * w[k - (h_t/dt - p_t/dt)] inside the hit, else 0; the
+   area grows by the hits' areas inside the peak, area_per_channel[c] by those of channel c *)
+Theorem C19_sum_waveform_sample_is_hit_sum :
+  forall gains recs prev_i next_i nsr dt lmax p_t p_len p_dt nch, 0 <= p_len ->
+  forall hs buf area apc buf' area' apc',
+    Forall (fun h => 0 <= sh_ch h < Z.of_nat nch) hs ->
+    length buf = Z.to_nat p_len -> length apc = nch ->
+    sw_scan gains recs prev_i next_i nsr dt lmax p_t p_len p_dt hs buf area apc = Ok (buf', area', apc') ->
+    exists ws, Forall2 (fun h w => hit_wave recs prev_i next_i nsr lmax h = Ok w) (sw_used dt p_t p_len hs) ws /\
+      let hw := combine (sw_used dt p_t p_len hs) ws in
+      (forall k, 0 <= k < p_len -> zget buf' k = zget buf k + sum_contrib gains dt p_t hw k) /\
+      area' = area + sum_area gains dt p_t p_len hw /\
+      (forall c, nth c apc' 0 = nth c apc 0 + sum_area_ch gains dt p_t p_len c hw).
+Proof. exact sw_scan_samples. Qed.
+Print Assumptions C19_sum_waveform_sample_is_hit_sum.
 
 (* T5: [1,1,1,1,7] in a 4-sample buffer -> [2,2] (half units: 4+4 = 8 against an area of 22) *)
 Theorem C19_sum_waveform_area_after_downsampling_refuted :
